@@ -786,6 +786,39 @@ def rule_carried_trivia(ck, facts):
     ck.floor(R, "trivia_reads_in_loops", n, 5)
 
 
+
+def rule_type_kind_sets(ck, facts):
+    """a printer that asks `is this child a type?` knows every kind of type the language has"""
+    R = "C14.dispatch"
+    lang = facts.crate(roles.LANG)
+    T = None
+    for f in lang.fns:
+        if "::parser::lower::" in f.path and f.kind in ("assoc", "fn") and "TypeNodeId" in f.local_ty(0):
+            cov = cover.coverage(facts, f, SK)
+            if cov is not None and cov.primary is not None:
+                hs = set(cov.primary_handled()) - set(getattr(cov, "catchall", ()))
+                if len(hs) >= 5 and (T is None or len(hs) > len(T)):
+                    T = hs
+    ck.require(R, T is not None, "anchor|type-lowering", "the function that lowers a type node (dispatch on SyntaxKind, answers a TypeNodeId) was not found")
+    if T is None:
+        return
+    n = 0
+    for cov in cover.find_matchers(facts, FMT, SK):
+        f = cov.fn
+        if "::test" in f.path or f.kind == "promoted":
+            continue
+        S = set(cov.primary_handled()) - set(getattr(cov, "catchall", ()))
+        if len(S) < 4 or not S <= T:
+            continue
+        n += 1
+        key = "type-kinds|%s" % f.root.split("::")[-1]
+        if S == T:
+            ck.ok(R, key, {"kinds": len(S)})
+        else:
+            ck.bad(R, key, "%s recognises a type by a list of node kinds that lacks %s (the lowering accepts %d kinds of type): such a return type is taken for the first child of what follows, printed with a space in front and the real next child glued to it — `|x:float|->float|int x` becomes `-> float|intx`, another program" % (f.short, sorted(T - S), len(T)), f.where())
+    ck.floor(R, "type_kind_tests", n, 1)
+
+
 def token_texts(facts):
     """TokenKind variant -> its spelling, read off the arms of <TokenKind as Display>::fmt"""
     from ..cfg import DefIndex
@@ -884,6 +917,7 @@ def run(ck, facts, tier):
     rule_skipped_token_trivia(ck, facts)
     rule_carried_trivia(ck, facts)
     rule_dispatch(ck, facts, pm)
+    rule_type_kind_sets(ck, facts)
     rule_comment_kinds(ck, facts)
     rule_trivia_sinks(ck, facts)
     rule_trivia_lookup(ck, facts)
